@@ -35,6 +35,9 @@ type Family struct {
 	Thunks []Thunk
 	// Pairs, when non-nil, lists the pairs (i, j) of thunks to run side by side; nil = every i < j.
 	Pairs [][2]int
+	// Bounds, when non-nil, replaces the preemption bounds (calls with thousands of scheduling points
+	// of their own are explored without preemption: both orders, ThreadSanitizer on each).
+	Bounds []int
 }
 
 func (f Family) pairs() [][2]int {
@@ -153,7 +156,11 @@ func Run(c *core.Ctx, fams []Family) {
 				}
 				rl.New() // whatever the sequential runs printed is not attributed to a schedule
 			}
-			schedlib.Explore(c, rl, scenario(f, i, j, ref, bounds))
+			bs := bounds
+			if f.Bounds != nil {
+				bs = f.Bounds
+			}
+			schedlib.Explore(c, rl, scenario(f, i, j, ref, bs))
 		}
 	}
 	c.Bound("concurrent_twins", fmt.Sprintf("%d families, %d pairs of calls (each call twice per goroutine), preemption bounds %v", len(fams), pairs, bounds))
